@@ -67,6 +67,25 @@ def d1_unreplayed_streams_keep_numbers(ctx, rm: REModel, streams=("interruptions
         adds = [c for c in A.calls_in(col.node) if A.call_name(c) == f"self.{X}.add" and c.args and A.norm(c.args[0]) == "stream_name"]
         ctx.ob(rule, cname(col, None, f"declared collect stream registered in self.{X}"), bool(adds),
                "" if adds else "collected data of a declared stream are rolled back by a rewind", nontrivial=True, where=where(col, col.node))
+        # ... on every path: whichever way collect arrived at the name of a declared stream (given in the message, inferred from the single
+        # declaration), the stream is registered before collect returns
+        gc = q.cfg(col, q.quiet_policy(rm.repo))
+        named = [n for n in gc.nodes if n.kind == "stmt" and isinstance(n.stmt, (ast.Assign, ast.AnnAssign)) and n.stmt.value is not None
+                 and any(isinstance(t, ast.Name) and t.id == "stream_name" for t in A.targets_of(n.stmt))
+                 and not (isinstance(n.stmt.value, ast.Constant) and n.stmt.value.value is None)]
+        for n in named:
+            starts = [v for v, lab in gc.succ[n.id] if not (isinstance(lab, tuple) and lab[0] == "exc")]
+            w = gc.must_pass(starts, lambda m: m.kind == "stmt" and m.stmt is not None and any(
+                A.call_name(c) == f"self.{X}.add" and c.args and A.norm(c.args[0]) == "stream_name" for c in A.calls_in(m.stmt))
+                and not isinstance(m.stmt, (ast.If, ast.For, ast.While, ast.Try, ast.With)), exits=[gc.exit],
+                # collect itself treats a falsy name as "no declared stream" (old-style describe_collect path): nothing to register there
+                edge_ok=lambda u, v, lab: not (gc.nodes[u].kind == "test" and gc.nodes[u].ast is not None and (
+                    (A.norm(gc.nodes[u].ast) == "stream_name" and lab == "F") or (A.norm(gc.nodes[u].ast) == "not stream_name" and lab == "T")
+                    or (A.norm(gc.nodes[u].ast).startswith("not stream_name and ") and lab == "T"))))
+            ctx.ob(rule, cname(col, n.stmt, "registered on every path to the return"), w is None,
+                   "" if w is None else f"after `{A.head(n.stmt)}` collect can return without registering the stream in self.{X}: a rewind rolls its counter back to the "
+                   "checkpoint although the collected datums are never replayed - later datums repeat seq_nums", nontrivial=True, witness=w[-6:] if w else None, where=where(col, n.stmt))
+        ctx.require(named, "anchor vanished: the definitions of `stream_name` in RunBundler.collect")
         dc = rm.b("_describe_collect")
         loops = [s for s in A.walk_stmts(dc.node.body) if isinstance(s, ast.For) and "describe_collect_items" in A.norm(s.iter)]
         ok = bool(loops) and any(A.call_name(c) == f"self.{X}.add" and c.args and isinstance(c.args[0], ast.Name) and c.args[0].id in A.names_in(loops[-1].target)
@@ -201,6 +220,9 @@ CLAIM = {
 
 BU = "bundlers.py"
 MUTANTS = [
+    ("an inferred stream name is not registered as never replayed (seed C45-c)",
+     [(BU, "            stream_name = message_stream_name\n", "            stream_name = message_stream_name\n            self._unreplayed_streams.add(stream_name)\n"),
+      (BU, "        if stream_name:\n            self._unreplayed_streams.add(stream_name)\n        else:\n", "        if not stream_name:\n")], "C05.D1"),
     ("rewind rolls back every stream (revert of the F-3 fix)",
      [(BU, "        self._sequence_counters.update(self._sequence_counters_copy)\n        self._sequence_counters.update(live_counters)\n", "        self._sequence_counters.update(self._sequence_counters_copy)\n")], "C05.D1"),
     ("monitor stream no longer registered",
